@@ -541,7 +541,46 @@ impl<'tcx> Cx<'tcx> {
                     J::obj(vec![("k", J::s("slice")), ("len", J::Int(meta as i128))])
                 }
             }
-            ConstValue::Indirect { .. } => J::obj(vec![("k", J::s("indirect"))]),
+            ConstValue::Indirect { alloc_id, offset } => {
+                // a by-reference constant: for &[u8] / &str (a fat pointer stored in the allocation) follow the
+                // pointer and expose the bytes; everything else stays opaque
+                let fat_u8 = match ty.kind() {
+                    ty::Ref(_, inner, _) => match inner.kind() {
+                        ty::Slice(e) => *e == self.tcx.types.u8,
+                        ty::Str => true,
+                        _ => false,
+                    },
+                    _ => false,
+                };
+                if fat_u8 {
+                    if let Some(GlobalAlloc::Memory(m)) = self.tcx.try_get_global_alloc(alloc_id) {
+                        let a = m.inner();
+                        let off = offset.bytes();
+                        let psz = self.tcx.data_layout.pointer_size().bytes();
+                        if off + 2 * psz <= a.len() as u64 {
+                            let target = a
+                                .provenance()
+                                .ptrs()
+                                .iter()
+                                .find(|(o, _)| o.bytes() == off)
+                                .map(|(_, p)| p.alloc_id());
+                            let raw = a.inspect_with_uninit_and_ptr_outside_interpreter(off as usize..(off + 2 * psz) as usize);
+                            let mut base: u64 = 0;
+                            let mut len: u64 = 0;
+                            for i in 0..psz as usize {
+                                base |= (raw[i] as u64) << (8 * i);
+                                len |= (raw[psz as usize + i] as u64) << (8 * i);
+                            }
+                            if let Some(t) = target {
+                                if let Some(b) = self.alloc_bytes(t, base, Some(len)) {
+                                    return self.bytes_j(b, ty);
+                                }
+                            }
+                        }
+                    }
+                }
+                J::obj(vec![("k", J::s("indirect"))])
+            }
         }
     }
 
